@@ -1,10 +1,10 @@
 #!/bin/bash
 # usage: killall.sh [<outfile>]  - tries every seeded change against the check of the property it breaks
-# (and the other checks its meta.json lists as catching it); prints one line per (change, check).
+# (and the other checks its meta.json lists as catching it; with OWNONLY=1 only the owning check, or - where that one does not catch it - the checks listed); prints one line per (change, check).
 out=${1:-/tmp/killall.out}
 cd /verif
 : > "$out"
-run() { d=$1; id=$(basename $d); props=$(python3 -c "import json;m=json.load(open('$d/meta.json'));print(' '.join(dict.fromkeys([m['breaks_property']]+m.get('caught_by',[]))))"); r=$(PAR=2 tools/trymut.sh $d/patch.diff $props 2>&1 | cut -c1-220); echo "== $id [$props]"; echo "$r"; }
+run() { d=$1; id=$(basename $d); props=$(python3 -c "import json;m=json.load(open('$d/meta.json'));own=m['breaks_property']; cb=m.get('caught_by',[]); import os; print(' '.join(dict.fromkeys([own]+cb)) if not os.environ.get('OWNONLY') else (own if (own in cb or not cb) else ' '.join(cb)))"); r=$(PAR=2 tools/trymut.sh $d/patch.diff $props 2>&1 | cut -c1-220); echo "== $id [$props]"; echo "$r"; }
 export -f run
 ls -d seeded/*/ | xargs -P 6 -I{} bash -c 'run {}' >> "$out" 2>&1
 echo ALLDONE >> "$out"
